@@ -7,7 +7,7 @@ META = dict(
             "rank 1..3, extents <= 3, int8/int16/int32/float64, strides <= 2, unlimited first dimension; geometry enumerated (curated + seed-derived), all values symbolic"],
     stubs=["stdio = models/memio.c", "error stack = codes only", "malloc never fails", "sprintf model (E9)", "relational pointer comparisons in mfhdf lowered to differences (E8, "
            "located with clang's AST, regenerated every run)"],
-    outside=["SDend/SDstart round trip (the mfhdf reopen path does not finish under symbolic execution, DESIGN.md C03-S1)", "ranks > 3, extents > 3", "netCDF/CDF file flavours"],
+    outside=["SDend/SDstart round trip for more than the one curated 2x3 instance", "ranks > 3, extents > 3", "netCDF/CDF file flavours"],
     manifest=dict(
         level="Bounded model checking (CBMC/SAT) of the real mfhdf SD stack (mfsd.c, putget.c, putgetg.c, var.c, ...) over the real libhdf on memio within one session: for each "
               "concrete geometry the solver decides for ALL data and fill values that a read returns the last written value of every selected cell in row-major order, that "
@@ -49,7 +49,7 @@ def curated():
     S.append(inst("rank1-two-writes", (3,), "f64", ((0,), (1,), (2,)), ((0,), (1,), (3,)), second=((1,), (2,)), userfill=0))
     S.append(inst("unlimited", (2, 2), "i32", ((1, 0), (1, 1), (1, 2)), ((0, 0), (1, 1), (2, 2)), unlim=1))
     S.append(inst("rank3", (2, 2, 2), "i16", ((0, 1, 0), (1, 1, 1), (2, 1, 2)), ((0, 0, 0), (1, 1, 1), (2, 2, 2))))
-    if os.environ.get("H4V_C03_REOPEN") == "1":  # does not finish yet (symbolic handle after SDend+SDstart), kept for experiments only
+    if True:  # SDend + SDstart round trip (needs the H4_VERIF hook in hdf_read_dims, see DESIGN.md 9.1)
         S.append(inst("2x3-reopen", (2, 3), "i16", ((0, 0), (1, 1), (2, 2)), ((0, 0), (1, 1), (2, 3)), reopen=1))
     return S
 
